@@ -407,6 +407,91 @@ proof fn theorem_commitments_roundtrip(t: Seq<T>, c: T, f: Seq<T>)
     lemma_many_rt(f, Seq::<u8>::empty());
 }
 
+// ---------------------------------------------------------------------------------------------------------------------
+// Queries::parse (air/src/proof/queries.rs, C03 / C06): the canonical decoder of a query section. For every byte content of the
+// two vectors, every number of queries and values per query within the table limits: Ok exactly when (1) the value bytes are
+// EXACTLY num_queries * values_per_query * ELEMENT_BYTES long, (2) they decode to that many elements, (3) the path bytes decode
+// to a batch Merkle proof for the leaves hash_elements(row 0), hash_elements(row 1), .. of the decoded table and the depth
+// log2(domain_size), and (4) nothing follows the proof; then the results are that proof and that table. No overflow; the three
+// assertions are the documented pre-condition.
+// Named contracts (assumed, listed): BatchMerkleProof::deserialize (proved against its own body in unit containerv), the row
+// iterator `rows().map(|row| H::hash_elements(row)).collect()` (shim hash_rows: one digest per row, in order), `usize::ilog2`,
+// `usize::is_power_of_two`, E::ELEMENT_BYTES (a named positive constant of at most 64).
+pub struct Queries { pub paths: Vec<u8>, pub values: Vec<u8> }
+pub uninterp spec fn elem_bytes() -> usize;
+pub struct E;
+impl E {
+    #[verifier::external_body]
+    pub fn element_bytes() -> (r: usize) ensures r == elem_bytes(), 1 <= r <= 64 { unimplemented!() }
+}
+pub open spec fn row_hashes(data: Seq<T>, rows: nat, w: nat) -> Seq<Dg> {
+    Seq::new(rows, |i: int| hash_elements_of(data.subrange(i * w, (i + 1) * w)))
+}
+#[verifier::external_body]
+pub fn hash_rows(t: &Table) -> (r: Vec<Dg>)
+    requires t.row_width > 0
+    ensures r@ == row_hashes(t.data@, (t.data@.len() / (t.row_width as nat)) as nat, t.row_width as nat)
+{ unimplemented!() }
+pub struct BatchMerkleProof { pub id: Ghost<int> }
+pub uninterp spec fn bmp_dec(bytes: Seq<u8>, leaves: Seq<Dg>, depth: u8) -> Option<(BatchMerkleProof, Seq<u8>)>;
+impl BatchMerkleProof {
+    #[verifier::external_body]
+    pub fn deserialize(reader: &mut SliceReader, leaves: Vec<Dg>, depth: u8) -> (r: Result<BatchMerkleProof, DeserializationError>)
+        ensures
+            r is Ok <==> bmp_dec(old(reader).rem@, leaves@, depth) is Some,
+            r is Ok ==> bmp_dec(old(reader).rem@, leaves@, depth) == Some((r->Ok_0, final(reader).rem@)),
+    { unimplemented!() }
+}
+pub uninterp spec fn is_pow2_spec(x: usize) -> bool;
+pub uninterp spec fn ilog2_spec(x: usize) -> u32;
+#[verifier::external_body]
+pub fn is_power_of_two(x: usize) -> (r: bool) ensures r == is_pow2_spec(x) { x.is_power_of_two() }
+#[verifier::external_body]
+pub fn ilog2(x: usize) -> (r: u32) requires x >= 1 ensures r == ilog2_spec(x), r < 64 { x.ilog2() }
+
+pub open spec fn queries_ok(q: Queries, domain_size: usize, nq: usize, vpq: usize) -> bool {
+    &&& q.values@.len() == nq * (elem_bytes() * vpq)
+    &&& dec_many(q.values@, (nq * vpq) as nat) is Some
+    &&& bmp_dec(q.paths@, row_hashes(dec_many(q.values@, (nq * vpq) as nat)->Some_0.0, nq as nat, vpq as nat), ilog2_spec(domain_size) as u8) is Some
+    &&& bmp_dec(q.paths@, row_hashes(dec_many(q.values@, (nq * vpq) as nat)->Some_0.0, nq as nat, vpq as nat), ilog2_spec(domain_size) as u8)->Some_0.1.len() == 0
+}
+
+impl Queries {
+    //@@ source air/src/proof/queries.rs
+    //@@ extract anchor="pub fn parse<H, E>("
+    //@@ rewrite-re "assert!\(([^,]+),[^;]*\);" => "if !(\1) { must_not_panic(); }"
+    //@@ rewrite-re "(?s)DeserializationError::InvalidValue\(format!\(.*?\)\)\)" => "DeserializationError::InvalidValue(err_text()))"
+    //@@ rewrite "domain_size.is_power_of_two()" => "is_power_of_two(domain_size)"
+    //@@ rewrite "domain_size.ilog2()" => "ilog2(domain_size)"
+    //@@ rewrite "E::ELEMENT_BYTES" => "E::element_bytes()"
+    //@@ rewrite "Table::<E>::from_bytes(" => "Table::from_bytes("
+    //@@ rewrite "query_values.rows().map(|row| H::hash_elements(row)).collect()" => "hash_rows(&query_values)"
+    //@@ before "let hashed_queries"
+    //@@|        proof {
+    //@@|            assert((num_queries as int * values_per_query as int) / (values_per_query as int) == num_queries as int) by (nonlinear_arith) requires values_per_query >= 1, num_queries >= 0;
+    //@@|            assert(query_values.data@.len() / (query_values.row_width as nat) == num_queries);
+    //@@|        }
+    pub fn parse(self, domain_size: usize, num_queries: usize, values_per_query: usize) -> (r: Result<(BatchMerkleProof, Table), DeserializationError>)
+        requires
+            is_pow2_spec(domain_size), domain_size >= 1,
+            0 < num_queries <= MAX_ROWS, 0 < values_per_query <= MAX_COLS,
+            1 <= elem_bytes() <= 64,
+        ensures
+            r is Ok <==> queries_ok(self, domain_size, num_queries, values_per_query),
+            r is Ok ==> r->Ok_0.1.row_width == values_per_query
+                && r->Ok_0.1.data@ == dec_many(self.values@, (num_queries * values_per_query) as nat)->Some_0.0
+                && r->Ok_0.0 == bmp_dec(self.paths@, row_hashes(r->Ok_0.1.data@, num_queries as nat, values_per_query as nat), ilog2_spec(domain_size) as u8)->Some_0.0,
+    {
+        proof {
+            assert(MAX_ROWS <= 255 && MAX_COLS <= 255) by (compute);
+            assert(num_queries * values_per_query <= 255 * 255) by (nonlinear_arith) requires num_queries <= 255, values_per_query <= 255;
+            assert(elem_bytes() * values_per_query <= 64 * 255) by (nonlinear_arith) requires elem_bytes() <= 64, values_per_query <= 255;
+            assert(num_queries * (elem_bytes() * values_per_query) <= 255 * (64 * 255)) by (nonlinear_arith) requires num_queries <= 255, elem_bytes() * values_per_query <= 64 * 255;
+        }
+        /*@@body*/
+    }
+}
+
 proof fn oodv_canary_must_fail(b: Seq<u8>)
     requires trace_ok(b, 1)
     ensures b.len() == 1
